@@ -195,6 +195,7 @@ TraceRet ==
        /\ Viol("C06", "solution", C06_Solution(C, R))
        /\ Viol("C06", "callback_interpolant", C06_Callback(A))
        /\ Viol("C08", "recorded", C08_Recorded(C, R))
+       /\ Viol("C08", "direction", C08_Direction(C, R))
        /\ Viol("C09", "recorded", C09_Recorded(C, R))
        /\ Viol("C10", "recorded", C10_Recorded(C, R))
        /\ Viol("C10", "honoured", C10_Honoured(C, R))
@@ -202,6 +203,7 @@ TraceRet ==
        /\ Viol("C18", "counters", C18_Counters(C, A, R))
        /\ Viol("C18", "intervals", C18_Intervals(C, R))
        /\ Viol("C19", "protocol", C19_Protocol(C, A, R))
+       /\ Viol("C19", "interpolant", IsLow(R) => C06_Callback(A))   \* "passing an interpolant valid on that interval"
        \* Level B conformance (drift, never a violation): attempt structure and the counters the model predicts
        /\ LET lb == C.method \in {"RK4", "RK23", "DOPRI5", "DOP853"} /\ C.api = "low" /\ R.kind = "low"
                       /\ ~(\E j \in 1..Len(C.script) : C.script[j].action = "xout")
